@@ -24,6 +24,10 @@ inductive SpaceX (α : Type) where
   | spacetime (vmax w0 w1 : α) (bounded : Bool) (lo hi : α) (inner : Space α)
   | constrained (amb : Space α)
   | cforest (s : SpaceX α)
+  /-- a Torus / Möbius / Klein-bottle / Sphere space (`s`) whose two subspace weights were changed by
+  `setSubspaceWeight` (they are CompoundStateSpaces of two components built with weights 1, 1; `lock()` only blocks
+  `addSubspace`) -/
+  | weighted (s : Space α) (w0 w1 : α)
 
 variable {α : Type} [Num α]
 
@@ -43,6 +47,37 @@ def SpaceX.layout : SpaceX α → Space α
   | .spacetime _ w0 w1 b lo hi inner => .ccons w0 inner (.ccons w1 (.time b lo hi) .cnil)
   | .constrained amb => amb
   | .cforest s => s.layout
+  | .weighted s _ _ => s
+
+/-- `MobiusStateSpace::distance` with the current weights: away from the gluing the inherited compound sum
+`0 + w0·dS + w1·dR`; across it `0 + w0·dS`, then `+ sqrt((−v₂ − v₁)²)` — the second weight is NOT applied (F361) -/
+def mobiusDistW (w0 w1 u1 v1 u2 v2 : α) : α :=
+  let diff := u2 - u1
+  if Num.abs diff ≤ Num.pi then Num.ofNat 0 + w0 * so2Dist u1 u2 + w1 * rvDist [v1] [v2]
+  else
+    let dist := Num.ofNat 0 + w0 * so2Dist u1 u2
+    let r2 := -v2
+    dist + Num.sqrt ((r2 - v1) * (r2 - v1))
+
+/-- `KleinBottleStateSpace::distance` with the current weights: `|Δu| ≤ π/2`: the compound sum; otherwise `d_u + d_v`
+with NO weight at all (F361) -/
+def kleinDistW (w0 w1 u1 v1 u2 v2 : α) : α :=
+  let diffU := u2 - u1
+  if Num.abs diffU ≤ half * Num.pi then Num.ofNat 0 + w0 * rvDist [u1] [u2] + w1 * so2Dist v1 v2
+  else kleinDist u1 v1 u2 v2
+
+/-- `CompoundStateSpace::getMaximumExtent` over two components (guard `> 0`, or the former `>= epsilon`) -/
+def extent2 (old : Bool) (w0 w1 e0 e1 : α) : α :=
+  let keep (w : α) : Bool := if old then eps ≤ w else Num.ofNat 0 < w
+  let a : α := if keep w0 then Num.ofNat 0 + w0 * e0 else Num.ofNat 0
+  if keep w1 then a + w1 * e1 else a
+
+/-- `getMaximumExtent` of a special space with changed weights: the inherited compound extent (Sphere overrides it) -/
+def extentW (old : Bool) (w0 w1 : α) : Space α → α
+  | .torus _ _ => extent2 old w0 w1 Num.pi Num.pi
+  | .mobius imax _ => extent2 old w0 w1 Num.pi (rvExtent [-imax] [imax])
+  | .klein => extent2 old w0 w1 (rvExtent [Num.ofNat 0] [Num.pi]) Num.pi
+  | s => maxExtent s
 
 /-- `distance`; `none` is `+∞` -/
 def distX [SphereNum α] : SpaceX α → St α → St α → Option α
@@ -55,6 +90,11 @@ def distX [SphereNum α] : SpaceX α → St α → St α → Option α
   | .spacetime .., _, _ => some (Num.ofNat 0)
   | .constrained amb, a, b => some (dist amb a b)
   | .cforest s, a, b => distX s a b
+  | .weighted (.mobius _ _) w0 w1, .ccons (.so2 u1) (.ccons (.rv [v1]) .cnil), .ccons (.so2 u2) (.ccons (.rv [v2]) .cnil) =>
+    some (mobiusDistW w0 w1 u1 v1 u2 v2)
+  | .weighted .klein w0 w1, .ccons (.rv [u1]) (.ccons (.so2 v1) .cnil), .ccons (.rv [u2]) (.ccons (.so2 v2) .cnil) =>
+    some (kleinDistW w0 w1 u1 v1 u2 v2)
+  | .weighted s _ _, a, b => some (dist s a b)      -- Torus / Sphere: `distance` never looks at the weights
 
 /-- `getMaximumExtent`; `none` is `+∞` -/
 def extentX : SpaceX α → Option α
@@ -63,6 +103,16 @@ def extentX : SpaceX α → Option α
   | .spacetime .. => none
   | .constrained amb => some (maxExtent amb)
   | .cforest s => extentX s
+  | .weighted s w0 w1 => some (extentW false w0 w1 s)
+
+/-- the same with the former compound guard (`maxExtentOld`) -/
+def extentXOld : SpaceX α → Option α
+  | .base s => some (maxExtentOld s)
+  | .empty => some (Num.ofNat 0)
+  | .spacetime .. => none
+  | .constrained amb => some (maxExtentOld amb)
+  | .cforest s => extentXOld s
+  | .weighted s w0 w1 => some (extentW true w0 w1 s)
 
 def equalX (sx : SpaceX α) (a b : St α) : Bool := equalStates sx.layout a b
 def inBoundsX (sx : SpaceX α) (a : St α) : Bool := satisfiesBounds sx.layout a
@@ -74,5 +124,6 @@ def claimsMetricX : SpaceX α → Bool
   | .spacetime .. => false
   | .constrained _ => false
   | .cforest s => claimsMetricX s
+  | .weighted s _ _ => claimsMetric s
 
 end OmplModel.SpaceDist
